@@ -24,6 +24,7 @@ Inductive gor :=
 | GHandler                          (* the session's handleInboundMessages goroutine *)
 | GMetaProc                         (* realm.metaProcedureHandler *)
 | GSpawned                          (* a goroutine started with "go" from router code *)
+| GRouter                           (* inside a closure executed by the router goroutine *)
 | GApi.                             (* caller of the router API (Attach, Close, ...) *)
 
 Inductive sform := FTry | FBlocking.
@@ -64,7 +65,7 @@ Definition kind_eqb (a b : mkind) : bool :=
 Definition gor_eqb (a b : gor) : bool :=
   match a, b with
   | GBroker, GBroker | GDealer, GDealer | GRealm, GRealm | GHandler, GHandler
-  | GMetaProc, GMetaProc | GSpawned, GSpawned | GApi, GApi => true
+  | GMetaProc, GMetaProc | GSpawned, GSpawned | GRouter, GRouter | GApi, GApi => true
   | _, _ => false
   end.
 
